@@ -368,7 +368,9 @@ package pkg
 // `negation` asks for the logical negation of the operand (the one-operand form of "not"): it must reach EVERY operand form -
 // a plain GRL string, a boolean, and a nested object whether or not that object needs parentheses of its own; a number cannot be negated
 //@   checks[C18] str: isStr(o) ==> err == nil && r == ite(negation, "!(" + as(o, string) + ")", as(o, string))
-//@   checks[C18] num: isF64(o) ==> (err == nil) == !negation && (err == nil ==> r == fmt_v_F64(as(o, float64)))
+// a bare number and the same number wrapped in const are the same literal (plain decimal digits, no exponent: an integral JSON
+// number stays an integer literal - `F.I % 1e+06` does not mean `F.I % 1000000`)
+//@   checks[C18] num: isF64(o) ==> (err == nil) == !negation && (err == nil ==> r == fmt_fs_F64(as(o, float64)))
 //@   checks[C18] boolean: isBool(o) ==> err == nil && r == ite(as(o, bool) != negation, "true", "false")
 //@   checks[C18] nested: isObj(o) ==> (err == nil) == ok_ex(o, 0) && (err == nil ==> r == ite(negation, "!(" + tr_ex(o, 0) + ")", ite(nw_ex(o, 0) || noWrap, tr_ex(o, 0), "(" + tr_ex(o, 0) + ")")))
 //@   checks[C18] other: !isStr(o) && !isF64(o) && !isBool(o) && !isObj(o) ==> err != nil
@@ -379,7 +381,7 @@ package pkg
 //@   modifies $allocated
 //@   trusted_ensures r == tr_callop(o) && (err == nil) == ok_callop(o)
 //@   checks[C18] str: isStr(o) ==> (err == nil) == (len(as(o, string)) > 0) && (err == nil ==> r == as(o, string))
-//@   checks[C18] num: isF64(o) ==> err == nil && r == fmt_v_F64(as(o, float64))
+//@   checks[C18] num: isF64(o) ==> err == nil && r == fmt_fs_F64(as(o, float64))
 //@   checks[C18] boolean: isBool(o) ==> err == nil && r == ite(as(o, bool), "true", "false")
 //@   checks[C18] nested: isObj(o) ==> (err == nil) == ok_ex(o, 0) && (err == nil ==> r == tr_ex(o, 0))
 //@   checks[C18] other: !isStr(o) && !isF64(o) && !isBool(o) && !isObj(o) ==> err != nil
